@@ -18,6 +18,8 @@ SCENARIOS = {
     'emit-during-loss': (['loss', 'reconnect'], ['e']),
     'emit-after-final': (['final'], ['e']),
     'receive-during-loss': (['loss', 'reconnect', 'arrive'], ['r']),
+    # the server greets from its own connect handler: the event is dispatched while connect() is still running
+    'greeting-during-connect': (['arrive'], ['r', 'r']),
 }
 
 
@@ -30,6 +32,8 @@ class Env:
         self.timeout_snaps = []   # (buffer, completed) at the instant a timed wait expired
         self.emitted = []
         self.up = True
+        self.greeting = False
+        self.greeted = False
 
 
 class FakeClient:
@@ -53,7 +57,12 @@ class FakeClient:
         return deco
 
     def connect(self, *a, **kw):
-        pass
+        if FakeClient.env is not None and FakeClient.env.greeting:
+            # Client._trigger_event: an event for which no handler is registered (yet) is dropped
+            FakeClient.env.greeted = True
+            h = self.h.get('*')
+            if h is not None:
+                h('ev', 0)
 
     def emit(self, event, data=None, namespace=None):
         if not FakeClient.env.up:
@@ -66,7 +75,7 @@ class FakeClient:
 
 class AFakeClient(FakeClient):
     async def connect(self, *a, **kw):
-        pass
+        FakeClient.connect(self, *a, **kw)
 
     async def emit(self, event, data=None, namespace=None):
         await miniloop.sleep(0)
@@ -145,13 +154,16 @@ def h_threads(t, part):
         finally:
             socketio.simple_client.Event = saved
         c.client_class = FakeClient
+        env.greeting = part['scenario'] == 'greeting-during-connect'
         c.connect('http://h')
         fc = FakeClient.last
-        buf = IList()
+        buf = IList(c.input_buffer)
         c.input_buffer = buf
         fc.h['connect']()
         got = []
-        narr = [0]
+        narr = [1 if env.greeted else 0]
+        if env.greeted:
+            env.completed.append(['ev', 0])
 
         def producer():
             for a in prod:
@@ -228,12 +240,15 @@ def h_async(t, part):
         loop = miniloop.new_loop(None, 400)
         c = socketio.AsyncSimpleClient()
         c.client_class = AFakeClient
+        env.greeting = part['scenario'] == 'greeting-during-connect'
         tk = loop.create_task(c.connect('http://h'))
         loop.run_until(lambda: tk.done_)
         fc = FakeClient.last
         fc.h['connect']()
         got = []
-        narr = [0]
+        narr = [1 if env.greeted else 0]
+        if env.greeted:
+            env.completed.append(['ev', 0])
 
         async def producer():
             for a in prod:
@@ -311,7 +326,7 @@ META = dict(
                 'and right after a wait returns; a timed wait may expire only while its flag is unset. Real '
                 'AsyncSimpleClient on miniloop with every await-point interleaving. The schedule is the only symbolic '
                 'input: systematic schedule enumeration driven by the solver (low solver leverage, stated).',
-    bounds={'quick': 'seven scenarios (two arrivals || two receives; burst of three; loss and reconnection between arrivals; '
+    bounds={'quick': 'eight scenarios (two arrivals || two receives; a greeting dispatched while connect() is still running; burst of three; loss and reconnection between arrivals; '
                      'final disconnect; emit during a temporary loss; emit after the end; receive during a loss); all '
                      'schedules at the granularity of event/buffer operations (decision bound 80)',
             'thorough': 'decision bound 120'},
